@@ -132,6 +132,36 @@ def run(ctx):
                       "ParserState.%s is a new/unclassified field: decide whether rollback must restore it" % n,
                       site="%s:%s" % (adt["file"], adt["line"]))
 
+    # ------------------------------------------------------------ R6 the commit path keeps lexer_stack aligned with the bytes
+    # rollback truncates lexer_stack to bytes+1 entries and relies on entry i+1 being the state after byte i.  The only
+    # place where the commit path removes an entry is the token-range arm of apply_token, which must delete exactly the
+    # flush entry (`remove(lexer_stack_flush_position)`, an entry that corresponds to no byte) and must not overwrite
+    # a surviving entry with it.
+    at = ctx.body(PS + "::apply_token")
+    shr, over = [], []
+    for bi, (w, m, r) in P.block_effects(at).items():
+        for (fld, c) in m:
+            if fld != (PS, "lexer_stack"):
+                continue
+            if L.is_shrinker(c):
+                shr.append((bi, c))
+            elif c.endswith(("::deref_mut", "::index_mut", "::last_mut", "::get_mut", "::as_mut_slice", "::iter_mut", "::swap")):
+                over.append((bi, c))
+    ok = bool(shr) and all(c.endswith("Vec::<T, A>::remove") and L.role(at, at.blocks[bi]["term"]["args"][1]).endswith(".lexer_stack_flush_position")
+                           for bi, c in shr)
+    ctx.check(ok, "C12-R6", "apply_token:removes-only-the-flush-entry", "lexer_stack shrinks only by remove(lexer_stack_flush_position)",
+              "ParserState::apply_token shrinks lexer_stack with %s: the byte/entry alignment rollback relies on is not preserved"
+              % sorted({c.rsplit("::", 1)[1] for _, c in shr}), site=at.where(shr[0][0]) if shr else at.where())
+    num = at.call_blocks(PS + "::flush_and_check_numeric")
+    reach = set()
+    for nb in num:
+        reach |= at.reachable(nb)
+    bad = [bi for bi, c in over if bi in reach]
+    ctx.check(bool(num) and not bad, "C12-R6", "apply_token:no-entry-overwrite-in-token-range-arm",
+              "after the flush of the token-range arm no surviving lexer_stack entry is overwritten",
+              "ParserState::apply_token overwrites a lexer_stack entry after flushing for a token-range token: the entry for the last "
+              "byte then holds the flushed state and a rollback to that boundary restores a closed lexeme", site=at.where(bad[0]) if bad else at.where())
+
     # ------------------------------------------------------------ R2 token level
     tp_roots = [TP + "::" + m for m in ("consume_token", "compute_mask", "check_stop", "compute_ff_tokens",
                                          "consume_ff_tokens", "validate_tokens_raw", "validate_token", "force_bytes")]
